@@ -1460,3 +1460,9 @@ mod test {
 		assert!(PaymentHash::from_base32(&input).is_err());
 	}
 }
+
+// verification hook (DESIGN.md of /verif): harnesses live outside the repository and are compiled only under cfg(kani) / cfg(ldk_verif)
+#[cfg(any(kani, ldk_verif))]
+#[allow(missing_docs, dead_code, unused_imports, unused_variables)]
+#[path = "/verif/hooks/invoice_de.rs"]
+pub mod verif_contracts;
